@@ -29,7 +29,7 @@ PLANS = {
     "C01": plan("one evaluation = one execution of 1-4 producers (random entry points: send, send_with, send_with_async, reserve+try_send_reserved; rejected sends retried 0-3 times, then given up) "
                 "against 1..MAX_STREAMS polling consumers on a random Uni kind / BUFFER_SIZE in {2,4,8,16,64} / MAX_STREAMS in {1,2,4}, payload with or without destructor, under a seeded schedule "
                 "(SER) or free-running with injected delays (FREE, 200-3200 events per producer); oracle = conservation over unique ids (exactly-once, nothing unsent, rejected never delivered, "
-                "rejected input handed back unchanged and un-invoked); distinct = distinct (schedule hash, configuration); non-trivial = every counted run had >= 2 threads interleaved",
+                "rejected input handed back unchanged and un-invoked); in 1 run of 4 every fourth send is issued from a destructor while the thread unwinds from a panic; distinct = distinct (schedule hash, configuration); non-trivial = every counted run had >= 2 threads interleaved",
                 [ser(15), free(10), ser(6, flavor="checked", shards=8)], [ser(200), free(150), ser(80, flavor="checked"), free(60, flavor="checked")], 2000, 20000),
     "C02": plan("one evaluation = one concurrent history (2-4 threads, 2-7 operations each or a fill-until-full/drain-until-empty burst) of send / poll / release-handle operations on a Uni channel kind "
                 "or directly on the AtomicMove / FullSyncMove rings (BUFFER_SIZE 2,4,8), stamped at the client boundary and checked by a WGL linearizability checker against a bounded FIFO "
@@ -40,7 +40,7 @@ PLANS = {
     "C03": plan("one evaluation = one execution with a fixed set of 1..min(4,MAX_STREAMS) listeners created before the first send, 1-3 producers through random entry points (send, send_with, "
                 "send_with_async, send_derived, reserve+try_send_reserved), independent polling threads per listener, on a random Multi kind (6 kinds); Arc kinds are kept within the buffer "
                 "(they wait by design beyond it); oracle = per-listener exactly-once + per-producer order + same address across listeners while every handle is still held + reference count = "
-                "live handles at quiescence; distinct = distinct (schedule hash, configuration)",
+                "live handles at quiescence; in 1 run of 3 the listeners are the survivors of an earlier random history of stream creations and drops; distinct = distinct (schedule hash, configuration)",
                 [ser(15), free(8), ser(6, flavor="checked", shards=8)], [ser(200), free(120), ser(80, flavor="checked")], 2000, 20000),
     "C04": {
         "level": "exploration",
@@ -57,7 +57,7 @@ PLANS = {
     "C16": plan("workload `cycles`: one evaluation = one sequential history of 1-60 (thorough: 1-400) fill/drain cycles on one channel (7 rejecting kinds, every entry point, random polls / releases / length "
                 "queries mixed in), every answer compared with an exact reference model (accept iff occupancy < BUFFER_SIZE, rejected send leaves pending_items_count and deliveries unchanged, "
                 "exactly BUFFER_SIZE accepted on the emptied channel); workload `retry`: one evaluation = 2-4 producers retrying rejected sends against one consumer (SER: conductor stall verdict "
-                "for a send that neither succeeds nor returns; FREE: 16 cores), followed by a capacity probe of the emptied channel; scenario `held` (1 SER run in 5): BUFFER_SIZE-1 events buffered + the last slot reserved by a thread that waits for the others, the others' sends must be rejected promptly (per-operation step bound), then reservation sent, conservation, capacity probe; non-trivial = at least one send was rejected in the run",
+                "for a send that neither succeeds nor returns; FREE: 16 cores), followed by a capacity probe of the emptied channel; SER lanes: a token holder that sleeps in a blocking wait for 2 s (kernel thread state 'S') is a stall; scenario `held` (1 SER run in 5): BUFFER_SIZE-1 events buffered + the last slot reserved by a thread that waits for the others, the others' sends must be rejected promptly (per-operation step bound), then reservation sent, conservation, capacity probe; non-trivial = at least one send was rejected in the run",
                 [dict(flavor="fast", lane="free", secs=8, args=["--set", "workload=cycles"]), ser(12), free(8, shards=8), dict(flavor="checked", lane="free", secs=5, shards=4, args=["--set", "workload=cycles"])],
                 [dict(flavor="fast", lane="free", secs=120, args=["--set", "workload=cycles"]), ser(150), free(100), dict(flavor="checked", lane="free", secs=60, args=["--set", "workload=cycles"]), ser(60, flavor="checked")],
                 2000, 20000, ["excluded by the property: Arc-based Multi kinds and the setter-based sends of the crossbeam Uni channel past their fullness test (they wait by documented design)"]),
@@ -74,7 +74,7 @@ PLANS = {
     "C13": plan("one evaluation = one concurrent history of 2-4 threads (alloc_ref / alloc_with, hold, dealloc_id / dealloc_ref, exhaust-until-None and refill bursts) on an OgreArrayPoolAllocator "
                 "over either free-list ring, POOL_SIZE in {2,4,8}, free-list sequence counters starting at 0, next to the 32-bit wrap or anywhere; online ownership-table monitor (one atomic per slot, "
                 "cleared before dealloc), owner tag integrity, id<->reference bijection; offline WGL linearizability against an id-pool model; exhaust-and-refill probe afterwards; workload `long`: "
-                "2-8 free-running threads, 20k-100k operations each under the online monitor only; 1 run in 3 pools values with a destructor (destructor on garbage / twice is reported), 1 in 4 issues some operations from a destructor while the thread unwinds from a panic; distinct = distinct observed history",
+                "2-8 free-running threads, 20k-100k operations each under the online monitor only; 1 run in 3 of the others pools 24-byte values (slot size not a power of two); 1 run in 3 pools values with a destructor (destructor on garbage / twice is reported), 1 in 4 issues some operations from a destructor while the thread unwinds from a panic; distinct = distinct observed history",
                 [ser(12), free(8), dict(flavor="fast", lane="free", secs=6, shards=8, args=["--set", "workload=long"]), ser(5, flavor="checked", shards=8)],
                 [ser(150), free(100), dict(flavor="fast", lane="free", secs=100, args=["--set", "workload=long"]), ser(60, flavor="checked"), dict(flavor="asan", lane="free", secs=60, crash_is_violation=True)], 2000, 20000),
     "C14": plan("one evaluation = one execution of 2-3 threads running scripts over {clone, drop, deref, increment_references+raw_copy, move to another thread, references_count} on handles to 1-2 pooled "
@@ -134,7 +134,7 @@ PLANS = {
     "C10": plan("workload `random`: one evaluation = one sequential history (5-400, thorough 5-2000 steps) over {create listener, send, receive one / all, drop listener (with or without unconsumed events), cancel all} "
                 "on a random non-log Multi kind (Uni kinds: create/drop bookkeeping only), MAX_STREAMS 1/2/4, the stream-id FIFO starting at 0, next to the 32-bit wrap or anywhere, compared step by step with "
                 "a reference model (live listeners; per listener the events accepted during its lifetime; running_streams_count == live; creation never panics below MAX_STREAMS); workload `exhaustive`: EVERY "
-                "legal history up to depth 7 (thorough 9; Uni kinds 6) for MAX_STREAMS 1 and 2, BUFFER_SIZE 2 and 4; non-trivial = at least one stream id was recycled in the history",
+                "legal history up to depth 7 (thorough 9; Uni kinds 6) for MAX_STREAMS 1 and 2, BUFFER_SIZE 2 and 4; every third drop happens while the thread unwinds from a panic; non-trivial = at least one stream id was recycled in the history",
                 [dict(flavor="fast", lane="free", secs=8), dict(flavor="fast", lane="free", secs=15, args=["--set", "workload=exhaustive"]), dict(flavor="checked", lane="free", secs=6, shards=8)],
                 [dict(flavor="fast", lane="free", secs=120), dict(flavor="fast", lane="free", secs=300, args=["--set", "workload=exhaustive"]), dict(flavor="checked", lane="free", secs=80)], 5000, 50000),
     "C06": plan("one evaluation = one pipeline on a real tokio runtime (paused-time current-thread or multi-thread with 2-8 workers): a Uni (4 executor kinds x 5 channel kinds, MAX_STREAMS 1-2) or a Multi (futures-fallible / "
@@ -143,7 +143,7 @@ PLANS = {
                 "running_streams_count == 0, channel not open; workload `storm`: batches of 200 small Unis (0-3 events, half of them with cancel_all_streams() right before the close, a third with a second concurrent close) "
                 "opened and closed back to back on one multi-thread runtime, same snapshot oracle -- the closing task's wake-ups race streams that are ending and being dropped on other workers; channel level (harness workload C07 with request=end_all, conductor + "
                 "free-running lanes): gracefully_end_all_streams(unbounded) issued by a requester thread against 1-4 streams driven by minimal executors (park on Pending) on every channel kind, with sends before and during the "
-                "request -- when it returns, every event accepted before the call has been yielded (Uni: by some stream, Multi: by every listener), every stream has answered end-of-stream, none is running, the channel is not open; distinct = distinct (behaviour sequence, config); non-trivial = at least one event",
+                "request -- when it returns, every event accepted before the call has been yielded (Uni: by some stream, Multi: by every listener), every stream has answered end-of-stream, none is running, the channel is not open; in 1 tokio run of 4 an earlier close precedes the unbounded one: with a deadline of a few ms (may expire) or abandoned by its caller after 1 ms; distinct = distinct (behaviour sequence, config); non-trivial = at least one event",
                 [dict(flavor="fast", lane="free", secs=20), dict(flavor="asan", lane="free", secs=12, shards=8), dict(flavor="fast", lane="free", secs=8, args=["--set", "workload=storm"]), dict(flavor="asan", lane="free", secs=8, shards=8, args=["--set", "workload=storm"]),
                  dict(flavor="fast", lane="ser", secs=8, workload="C07", args=["--set", "request=end_all"]), dict(flavor="fast", lane="free", secs=6, shards=8, workload="C07", args=["--set", "request=end_all"])],
                 [dict(flavor="fast", lane="free", secs=240), dict(flavor="checked", lane="free", secs=100), dict(flavor="asan", lane="free", secs=120), dict(flavor="fast", lane="free", secs=100, args=["--set", "workload=storm"]), dict(flavor="asan", lane="free", secs=100, args=["--set", "workload=storm"]),
